@@ -731,6 +731,43 @@ fn sessions_scenario(rng: &mut Rng) -> Vec<Session> {
     out
 }
 
+/// C17: the debugger's view of source text and symbols, on arbitrary (never executed) programs.
+fn sessions_view(rng: &mut Rng, n: usize) -> Vec<Session> {
+    let mut out = Vec::new();
+    let mut progs: Vec<Prog> = catalogue();
+    for i in 0..n {
+        let stack = rng.chance(1, 2);
+        let ast = random_program(rng, stack);
+        let labels = ast.iter().take_while(|i| i.k != "end").flat_map(|i| i.labs.clone()).collect();
+        progs.push(Prog { name: format!("view{}", i), ast, stack, input: vec![], labels, mayloop: true });
+    }
+    for (pi, prog) in progs.iter().enumerate() {
+        let o = orig_of(prog).rem_euclid(65536);
+        let w: i64 = prog.ast.iter().take_while(|i| i.k != "end").map(|it| match it.k { "orig" | "break" | "end" => 0, "blkw" => it.c, "stringz" => it.s.len() as i64 + 1, _ => 1 }).sum();
+        let mut script: Vec<Cmd> = Vec::new();
+        let mut addrs: Vec<i64> = ((o - 1).max(0)..=(o + w + 1).min(65535)).collect();
+        while addrs.len() > 70 {
+            let k = rng.below(addrs.len() as u64) as usize;
+            addrs.remove(k);
+        }
+        for a in addrs {
+            script.push(with_loc("assembly", Loc::Addr(a), rng));
+        }
+        for l in prog.labels.iter().take(12) {
+            script.push(with_loc("goto", Loc::Label(l.clone(), 0), rng));
+            script.push(with_loc("assembly", Loc::None, rng));
+            script.push(with_loc("print", Loc::Label(l.clone(), 1), rng));
+            script.push(with_loc("assembly", Loc::Label(l.clone(), -1), rng));
+            script.push(with_loc("breakadd", Loc::Label(l.clone(), 0), rng));
+        }
+        script.push(simple("breaklist", rng));
+        script.push(simple("exit", rng));
+        out.push(Session { id: format!("view:{}", prog.name), program: render_prog(rng, prog, pi % 4 != 0), stack: prog.stack,
+                           input: vec![], script: Some(script), fuel: 50, mayloop: true });
+    }
+    out
+}
+
 fn sessions_debug(rng: &mut Rng, n: usize, per_prog: usize, focus: &str) -> Vec<Session> {
     let mut out = Vec::new();
     let mut progs = catalogue();
@@ -771,6 +808,7 @@ pub fn main(args: &Args) {
         "tiny" => sessions_tiny(&mut rng, n, args.flag("exhaustive")),
         "debug" => sessions_debug(&mut rng, n, per, args.get("focus").unwrap_or("mixed")),
         "scenario" => sessions_scenario(&mut rng),
+        "view" => sessions_view(&mut rng, n),
         "enum" => sessions_enum(&mut rng, args.num("len", 2) as usize, args.num("stride", 1) as usize, args.num("phase", 0) as usize),
         other => panic!("unknown mode {other}"),
     };
